@@ -41,7 +41,8 @@ def make_case(rng, aligned, n_core_rings=1):
         gi.add_axial_regions(rng, case, 't0', lower=rng.random() < 0.8, upper=rng.random() < 0.8)
     nt = rng.choice([1, 2, 3])
     gi.random_power(rng, case, n_terms=nt, zero_cells=rng.random() < 0.3,
-                    components=rng.choice([("pins", "duct", "cool"), ("pins",), ("pins", "cool")]))
+                    components=rng.choice([("pins", "duct", "cool"), ("pins",), ("pins", "cool")]),
+                    per_asm_mesh=len(pos) > 1 and rng.random() < 0.7)      # assemblies need not share one axial power mesh
     if aligned and has_regions:
         regs = case['types']['t0']['AxialRegion']
         L = case['core']['length']
